@@ -2,7 +2,7 @@
    Only statements, each closed by [exact]; proofs live in Proofs/Kafka.v.
    assemble_* / disassemble_* / the data flow of Commit are the definitions of Gen/KafkaGen.v,
    regenerated from /repo/plugin/input/kafka/kafka.go on every check. *)
-From Verif Require Import Base.Sx Base.GoSem Model.KafkaInt Gen.KafkaGen Model.Kafka Proofs.Kafka.
+From Verif Require Import Base.Sx Base.GoSem Model.KafkaInt Gen.KafkaGen Model.Kafka Proofs.Kafka Model.KafkaGroup Proofs.KafkaGroup.
 
 (* Inside the stated ranges (topic index < 2^48 — wider than any topics list —, partitions 0..65535,
    offsets 0..2^47-1, leader epochs 0..65535) unpacking a packed value returns exactly the topic
@@ -121,6 +121,90 @@ Print Assumptions c10_note_epoch_unknown_marks_offset_itself.
 Theorem c10_client_commits_only_marks : gen_autocommit_marks = true.
 Proof. reflexivity. Qed.
 Print Assumptions c10_client_commits_only_marks.
+
+(* ======================= RESTART OF THE CONSUMER GROUP (Model/KafkaGroup.v) ======================
+   "A restart of the consumer group from the committed offsets therefore redelivers everything unfinished."
+   [redelivered b oldest log] is what a member that joins with the group's committed offsets b is handed of a
+   partition log: the executable model of which = 5 uses it for every Start and every eager rebalance of the REAL
+   plugin on an in-process broker (c10_begin_filter_is_redelivered), and the harness evaluates its consequence on
+   what the real kgo client delivered after each restart (redelivery_pred). *)
+Theorem c10_redelivered_spec :
+  forall b oldest log r,
+    In r (redelivered b oldest log) <->
+    In r log /\ match lookup b (key_of r) with Some h => fst h <= k_off r | None => oldest = true end.
+Proof. exact redelivered_spec. Qed.
+Print Assumptions c10_redelivered_spec.
+
+Theorem c10_begin_filter_is_redelivered :
+  forall b oldest (rs : list grec),
+    map fst (filter (fun x : grec => from_commit b oldest (fst x)) rs) = redelivered b oldest (map fst rs).
+Proof. exact begin_filter_is_redelivered. Qed.
+Print Assumptions c10_begin_filter_is_redelivered.
+
+(* Whatever Commit calls were made (any completion order, repetitions, any subset of the consumed records), a
+   record of the log that lies above every committed record of its partition is handed over again by the restart *)
+Theorem c10_restart_redelivers_above_commits :
+  forall topics rs log oldest m r,
+    len topics <= 2 ^ 48 -> Forall (rec_in_range topics) rs ->
+    commit_records topics [] rs = Ok m ->
+    In r log ->
+    (forall r', In r' rs -> key_of r' = key_of r -> k_off r' < k_off r) ->
+    (oldest = true \/ lookup m (key_of r) <> None) ->
+    In r (redelivered m oldest log).
+Proof. exact restart_redelivers_above_commits. Qed.
+Print Assumptions c10_restart_redelivers_above_commits.
+
+(* the only records a restart skips are those at or below a committed record of their own partition (or the
+   partition has no commit and the group starts at the end, offset: newest) *)
+Theorem c10_restart_skips_only_passed :
+  forall topics rs log oldest m r,
+    len topics <= 2 ^ 48 -> Forall (rec_in_range topics) rs ->
+    commit_records topics [] rs = Ok m ->
+    In r log -> ~ In r (redelivered m oldest log) ->
+    (lookup m (key_of r) = None /\ oldest = false) \/
+    (exists r', In r' rs /\ key_of r' = key_of r /\ k_off r <= k_off r').
+Proof. exact restart_skips_only_passed. Qed.
+Print Assumptions c10_restart_skips_only_passed.
+
+(* the property's last sentence, CONDITIONAL on its frontier clause (4th hypothesis: no record at or below a
+   committed record of its partition is unfinished — not given by spread routing, known finding): every
+   unfinished record is redelivered *)
+Theorem c10_restart_redelivers_everything_unfinished :
+  forall topics rs log oldest m,
+    len topics <= 2 ^ 48 -> Forall (rec_in_range topics) rs ->
+    commit_records topics [] rs = Ok m ->
+    (forall r r', In r log -> In r' rs -> key_of r' = key_of r -> k_off r <= k_off r' -> In r rs) ->
+    forall r, In r log -> ~ In r rs ->
+              (oldest = true \/ lookup m (key_of r) <> None) ->
+              In r (redelivered m oldest log).
+Proof. exact restart_redelivers_everything_unfinished. Qed.
+Print Assumptions c10_restart_redelivers_everything_unfinished.
+
+Theorem c10_committed_partition_has_head :
+  forall topics rs m r0,
+    len topics <= 2 ^ 48 -> Forall (rec_in_range topics) rs -> epochs_follow_offsets rs ->
+    commit_records topics [] rs = Ok m -> In r0 rs -> lookup m (key_of r0) <> None.
+Proof. exact committed_partition_has_head. Qed.
+Print Assumptions c10_committed_partition_has_head.
+
+(* CommitMarkedOffsets (the auto-commit tick and Plugin.Stop): an offset the group has committed afterwards was
+   committed before or is one of the heads kgo holds (c10_mark_at_most_one_past_consumed says what those are) *)
+Theorem c10_tick_commits_only_marks :
+  forall m b c k h,
+    lookup (fst (tick_marks m (b, c))) k = Some h -> lookup b k = Some h \/ In (k, h) m.
+Proof. exact tick_commits_only_marks. Qed.
+Print Assumptions c10_tick_commits_only_marks.
+
+(* non-vacuity of the group model: three lifetimes of the real plugin on topics a (2 partitions) and b (1), balancer
+   range. Lifetime 1: Commit of b/0 offset 7 and a/0 offset 1, an eager rebalance (the marks are discarded, everything
+   is delivered again), Commit of a/0 offset 1, commit tick (Kafka holds a/0 -> 2), another rebalance (a/0 is read
+   from offset 3 on), Stop. Lifetime 2: Commit of a/0 offset 3, but the final commit is refused (a crash as far as
+   Kafka can tell). Lifetime 3 is handed a/0 from offset 3 again. The observation is what the real code produced. *)
+Example c10_group_nonvacuous :
+  c10_group_run
+    (SL [SL [SB [97]%N; SB [98]%N]; SL [SZ 2; SZ 1]; SL [SZ 1; SZ 1; SZ 0; SZ 2; SZ 2; SZ 1; SZ 0; SZ 0; SZ 0; SZ 0; SZ 0]; SL [SL [SZ 0; SZ 0; SL [SZ 0; SZ 0; SZ 0]; SL [SZ 1; SZ 0; SZ 0]; SL [SZ 3; SZ 1; SZ 0]]; SL [SZ 0; SZ 1; SL [SZ 5; SZ 2; SZ 0]]; SL [SZ 1; SZ 0; SL [SZ 7; SZ 0; SZ 0]; SL [SZ 8; SZ 0; SZ 0]]]; SL [SL [SL [SL [SZ 0; SL [SZ 0; SZ 0; SL [SZ 4; SZ 1; SZ 0]; SL [SZ 5; SZ 1; SZ 0]]]; SL [SZ 1; SZ 6; SZ 1]; SL [SZ 3]; SL [SZ 1; SZ 1]; SL [SZ 2]; SL [SZ 3]]; SZ 0]; SL [SL [SL [SZ 1; SZ 0]]; SZ 1]; SL [SL []; SZ 0]]])
+    (SL [SZ 0; SL [SL [SL [SL [SL [SB [98]%N; SZ 0; SZ 8; SZ 0]]; SL [SL [SB [97]%N; SZ 0; SZ 2; SZ 0]; SL [SB [98]%N; SZ 0; SZ 8; SZ 0]]; SL [SL [SB [97]%N; SZ 0; SZ 2; SZ 0]]; SL [SL [SB [97]%N; SZ 0; SZ 2; SZ 0]]]; SL [SL [SZ 0; SL [SZ 0; SZ 65536; SZ 196609; SZ 262145; SZ 327681; SZ 0; SZ 65536; SZ 196609; SZ 262145; SZ 327681; SZ 196609; SZ 262145; SZ 327681]]; SL [SZ 1; SL [SZ 327682; SZ 327682; SZ 327682]]; SL [SZ 65536; SL [SZ 458752; SZ 524288; SZ 458752; SZ 524288; SZ 458752; SZ 524288]]]; SL [SL [SB [97]%N; SZ 0; SZ 2; SZ 0]]]; SL [SL [SL [SL [SB [97]%N; SZ 0; SZ 4; SZ 1]]]; SL [SL [SZ 0; SL [SZ 196609; SZ 262145; SZ 327681]]; SL [SZ 1; SL [SZ 327682]]; SL [SZ 65536; SL [SZ 458752; SZ 524288]]]; SL [SL [SB [97]%N; SZ 0; SZ 2; SZ 0]]]; SL [SL []; SL [SL [SZ 0; SL [SZ 196609; SZ 262145; SZ 327681]]; SL [SZ 1; SL [SZ 327682]]; SL [SZ 65536; SL [SZ 458752; SZ 524288]]]; SL [SL [SB [97]%N; SZ 0; SZ 2; SZ 0]]]]]) = Agree.
+Proof. vm_compute. reflexivity. Qed.
 
 (* ======================= FRONTIER CLAUSE — PLACEHOLDER, NOT CLAIMED HERE ======================
    "... and never passes a record of that partition that has been neither acknowledged by the
